@@ -83,6 +83,7 @@ type FuncContract struct {
 	AbstractDiv bool
 	AssumedFrame string
 	Closed   bool
+	Abstract []string
 	AtCalls  []*Clause
 	Effects  []string
 	CondEffects  []*Clause
@@ -234,6 +235,9 @@ func parseContracts(fset *token.FileSet, f *ast.File, pkgPath string) ([]*FuncCo
 				}
 				cl.CbName, cl.Kind, cl.Text = fs[0], "atcall-"+fs[1], strings.TrimSpace(fs[2])
 				cur.AtCalls = append(cur.AtCalls, cl)
+			case "abstract":
+				// abstract NAME...: library functions whose model is replaced by an uninterpreted function in this proof
+				cur.Abstract = append(cur.Abstract, strings.Fields(rest)...)
 			case "closed":
 				// every call the function makes must be accounted for (contract, model, inlined helper or effect-free library call)
 				cur.Closed = true
